@@ -19,6 +19,11 @@ CHECKS = {
     text="TLC proves by brute force that the transcribed axiom sets (ordering/graph ordering with all variants on all graphs <= 4 vertices, pebbling on all DAGs <= 4, stone, CPLS) are contradictory and that planted ordering is satisfiable iff the graph is connected; for every instance, small and mid-size, TLC compares the implementation's clause set (as named literals) with Axioms(params): none missing, none extra; small instances are also brute-forced for the documented satisfiability; Ramsey/van der Waerden/Pythagorean formulas are judged pointwise against good colourings over all assignments.",
     note="Trusted: identifier->index binding via variable groups, TLC, transcription of docstrings/comments into Families.tla. Unsatisfiability beyond ~16-22 variables rests on exact-axioms equality plus the textbook result. Known finding op:n=0.",
     ref="DESIGN.md §4 C03"),
+ "C04": dict(
+    technique="documented encodings transcribed in TLA+ (Linear.tla) and model-checked against the arithmetic/functional meaning by TLC; what the real builders add is judged by TLC over all assignments (trace validation, JudgeLinear.tla)",
+    text="TLC checks for every literal list over 3 variables (length <= 4, any polarity/repetition), all six operators and constants -2..6 that clause blasting, parity encoding, OPB normalisation and the binary-mapping clauses are equivalent to their meaning (about 137k instances x 8 assignments); the real CNF and OPB builders are then called with list/tuple/range/generator arguments for all operators/constants, normalize_opb/add_constraint on random constraints, and force_* on unary, sparse and binary mappings, and TLC judges the added clauses/constraints against the meaning for all assignments.",
+    note="Trusted: projection of clauses/constraints, identifier binding of mapping variables through the variable group, TLC. Literal lists up to length 4 (9 sampled), mappings up to 3x4 / 6 codes.",
+    ref="DESIGN.md §4 C04"),
  "C16": dict(
     technique="implementation-shaped TLA+ state machine (Graphs.tla) model-checked exhaustively by TLC; TLC-generated behaviours replayed into the real classes with every view compared after every call",
     text="TLC explores every reachable state of the implementation-shaped graph machine (vertex counts 0..3/4, all arguments incl. invalid) with invariant ViewsAgree and the no-side-effect action property; every behaviour of depth 2 (3 thorough) and thousands of deeper random walks are replayed into Graph/DirectedGraph/BipartiteGraph, comparing all views and networkx conversions with TLC's expected abstract views after each step.",
